@@ -46,6 +46,8 @@ def rank(info) -> int:
     """info = what the server has told the library about the user so far (status None = nothing yet: unknown)"""
     if info['status'] == 0:
         return -1
+    if info['status'] == 'ambiguous':
+        return -2
     r = 0
     if info['status'] in (1, 2):
         r += 1
@@ -102,11 +104,22 @@ class Rig:
 
     def _on_msg(self, event):
         m = event.message
+        name = getattr(m, 'username', None)
+        if name in self.known:
+            # the library keeps users in a weak table: what it is told about a user it has no unfinished
+            # transfer with (nothing tracks that user) is forgotten at once
+            tracked = any(t.username == name and not t.is_finalized() for t in self.tw.client.transfers.transfers)
+            if not tracked:
+                if isinstance(m, M.GetUserStatus.Response):
+                    self.known[name]['status'] = 'ambiguous'     # may or may not be remembered: not judged
+                return
         if isinstance(m, M.AddUser.Response) and m.username in self.known and m.exists:
             self.known[m.username]['status'] = m.status
+            self.known[m.username]['t'] = self.tw.world.now()
         elif isinstance(m, M.GetUserStatus.Response) and m.username in self.known:
             self.known[m.username]['status'] = m.status
             self.known[m.username]['privileged'] = m.privileged
+            self.known[m.username]['t'] = self.tw.world.now()
 
     def add(self, clause, detail, sig):
         if sig not in self.sigs:
@@ -142,6 +155,10 @@ class Rig:
         # priority of what was just started
         for t in newly:
             r_started = rank(self.known[t.username])
+            if r_started == -2:
+                continue
+            if any(abs(k.get('t', -1) - now) < 1e-9 for k in self.known.values()):
+                continue     # something was told in this very instant: the cycle may have decided just before
             if r_started < 0:
                 self.add('offline-user-started', f"t={now:.2f}: upload to offline user {t.username} started",
                          'C05:offline-user-started')
